@@ -230,9 +230,21 @@ def arg_swaps(P, bodies):
                 continue
             tgt = c.get("resolved") or c.get("path")
             cb = P.bodies.get(tgt) or (P.bodies.get(P._norm_lookup(tgt)) if P._norm_lookup(tgt) else None)
+            pnames = None
+            if cb is None and c.get("trait") and c.get("name"):
+                # an unresolved call of a workspace trait's method: its impls name the parameters; use a position's
+                # name only where every impl agrees on it
+                impls = [x for x in P.find(trait=c["trait"], method=c["name"]) if not x.is_closure and x.argc == len(cs.args)]
+                if impls:
+                    cb = impls[0]
+                    pnames = []
+                    for i in range(cb.argc):
+                        ns = {x.local_name(i + 1) for x in impls}
+                        pnames.append(ns.pop() if len(ns) == 1 else None)
             if cb is None or cb.argc != len(cs.args) or cb.argc < 2:
                 continue
-            pnames = [cb.local_name(i + 1) for i in range(cb.argc)]
+            if pnames is None:
+                pnames = [cb.local_name(i + 1) for i in range(cb.argc)]
             anames = [named_source(b, a) for a in cs.args]
             if sum(1 for a in anames if a) < 2:
                 continue
@@ -388,3 +400,51 @@ def fromvalue_rule(chk, P, prefix, types):
                     return False, "Value::parse is applied to %s, not the value being cast" % mir.o_str(o), [], c.loc
             return True, "", [dc[0].loc, pr[0].loc]
         chk.ob("%s.FromValue:%s" % (prefix, ty), "casting a property value to the typed form tries the typed value, then parses its text form", f)
+
+
+def hex_id_fromvalue_rule(chk, P, prefix):
+    """TraceId / SpanId cast from a value: typed value, else a *typed integer*, else the hex decoder.  Text must reach the
+    hex decoder only: a decimal text parse in front of it would read an all-digit hex id as a decimal number.  The two
+    sibling impls must agree step for step."""
+    FROM = "emit_core::value::FromValue"
+    seqs = {}
+
+    def steps(ty):
+        bs = [b for b in P.find(trait=FROM, method="from_value") if not b.is_closure and mir._strip_lifetimes(b.self_ty or "") == ty]
+        if not bs:
+            raise mir.AnchorMissing("impl FromValue for %s" % ty)
+        b = bs[0]
+        out = []
+        for x in [b] + P.closures_of(b):
+            for c in x.calls(normal_only=True):
+                nm = c.callee.get("name")
+                if nm in ("or_else", "and_then", "copied", "cloned", "ok", "by_ref", "map", "or"):
+                    continue
+                out.append((nm, c))
+        return b, out
+
+    for ty in ("emit::span::TraceId", "emit::span::SpanId"):
+        def f(ty=ty):
+            b, st = steps(ty)
+            for nm, c in st:
+                full = (c.callee.get("full") or "") + " " + " ".join(map(str, c.callee.get("generics") or []))
+                if nm in ("parse", "from_str") and re.search(r"\bu(8|16|32|64|128|size)\b|\bi(8|16|32|64|128|size)\b", full):
+                    return False, ("%s::from_value parses the value's *text* as a decimal integer (%s at %s) before the hex decoder: a "
+                                   "16/32-digit hex id made only of 0-9 would be read as a decimal number and give a different id"
+                                   % (ty, nm, c.loc)), [], c.loc
+            names = [nm for nm, c in st]
+            if "try_from_hex" not in names and "try_from_hex_slice" not in names:
+                return False, "%s::from_value never reaches the hex decoder" % ty, [], b.span
+            return True, "", [c.loc for nm, c in st]
+        chk.ob("%s.FromValue.hex:%s" % (prefix, ty), "an id's text form is read by the hex decoder only (no decimal text parse in front of it)", f)
+
+    def sib():
+        def norm(nm, c):
+            st = mir._strip_lifetimes(c.callee.get("self_ty") or "")
+            return re.sub(r"u128|u64", "uN", re.sub(r"TraceId|SpanId", "Id", "%s %s" % (st, nm)))
+        a = [norm(nm, c) for nm, c in steps("emit::span::TraceId")[1]]
+        b_ = [norm(nm, c) for nm, c in steps("emit::span::SpanId")[1]]
+        if a != b_:
+            return False, "TraceId and SpanId are cast from values by different steps: %s vs %s" % (a, b_), [], None
+        return True, "", a
+    chk.ob("%s.FromValue.hex:siblings" % prefix, "TraceId and SpanId cast from values by the same steps (typed, typed integer, hex text)", sib)
